@@ -131,10 +131,12 @@ impl<L: Language> SerializableRuleConfig<L> {
     rule: &RuleCore<L>,
     env: DeserializeEnv<L>,
   ) -> Result<(), RuleConfigError> {
+    let reg = &env.registration;
     let Some(ser) = &self.rewriters else {
+      // no rewriter is defined: a `rewrite` transformation cannot refer to any
+      check_rewriters_in_transform(rule, reg.get_rewriters())?;
       return Ok(());
     };
-    let reg = &env.registration;
     let vars = rule.defined_vars();
     for val in ser {
       if val.core.fix.is_none() {
